@@ -170,7 +170,7 @@ def check_line_model(acc: Acc, rel: str, old: bytes, new: bytes, exp, case) -> s
         zid = parts[0]
         rest_new = parts[1] if len(parts) > 1 else ""
         m = ZID_RE.match(zid)
-        want_day = (e.create or TODAY).strftime("%y%m%d")
+        want_day = (e.create or _STATE.get("day", TODAY)).strftime("%y%m%d")
         if not m:
             acc.violation(f"{rel}:{i + 1}: no well-formed ZID after the prefix: {a!r} -> {b!r}", case, cls="file: new note did not gain a ZID after its prefix")
             continue
@@ -209,7 +209,11 @@ def run_case(acc: Acc, seed: int, idx: int) -> None:
             return
     before = read_files(root)
     case["files"] = {k: v.decode() for k, v in before.items()}
-    with frozen(TODAY):
+    # "today" (the date new ZIDs of undated notes carry) varies: ordinary day, leap days, both sides of the %y pivot
+    day = [TODAY, dt.date(2028, 2, 29), TODAY, dt.date(2069, 1, 1), TODAY, dt.date(2032, 2, 29), dt.date(2068, 12, 31)][idx % 7]
+    _STATE["day"] = day
+    case["day"] = day.isoformat()
+    with frozen(day):
         _STATE["contract_violations"].clear()
         TRACER.start(root)
         r = db.cli(root, "db", "create")
